@@ -6,6 +6,39 @@ props = [json.loads(l) for l in open(os.path.join(V, "properties.jsonl"))]
 
 MACHINE_NOTE = 'The reference machine (spec/Machine.tla + Values.tla) is a transcription of the intended semantics checked for totality (NotStuck) by TLC; where no language document exists the pinned behaviour is the definition. Numbers outside the modelled domain are not compared.'
 CHECKS = {
+ "C02": dict(
+    level="model_checking",
+    text="Natives.tla is the dispatch-and-validation layer of vm.rs / core.rs as total functions over an adversarial pool of 78 values "
+         "(every Value variant; boundary numbers -0, 0.5, NaN, +-inf, +-2^63; empty / multi-byte strings; empty, invalid-byte and self-containing "
+         "vectors, maps; unhashable tuples; classes, metaclasses, instances incl. of classes derived from built-ins; closures of every arity, bound "
+         "methods and natives; fresh / exhausted iterators; new / suspended / finished fibers; a module). TLC enumerates every case of 14 forms "
+         "(method call with 0-3 arguments of every name on every receiver, property get / set, calls, 18 binary and 3 unary operators, indexing, "
+         "index assignment, ranges, iteration, map keys, inheritance, throw, formatting, and each operation repeated on the same objects) as initial "
+         "states, proves the outcome function total (invariant Defined) and prints the predicted outcome - completes, or error class + exact "
+         "message; each case runs on the checked and the optimised build and must give exactly that; the host must survive every case. "
+         "StackBudget.tla models the frame and slot budgets of a fiber; its terminal states predict the outcome of call chains (functions, methods, "
+         "lambdas, inside fibers) around the 64-frame limit with narrow and wide frames, and of deeply nested data.",
+    note="Exhaustive over the stated pool and forms only (not over all programs). String byte semantics are Strings.tla's (C13); results of "
+         "successful operations are checked by C05/C12/C13, here only that they complete. Four genuine defects (natives on instances of classes "
+         "derived from built-ins, == on two self-containing containers, value-stack overrun with wide frames, deep nesting) are recorded findings: "
+         "their cases are expected to crash today and are reported as KNOWN-FINDING.",
+    technique="TLA+ total outcome function (Natives.tla, StackBudget.tla) + TLC exhaustive case enumeration + one implementation run per case on two builds",
+    design="4 C02"),
+ "C19": dict(
+    level="model_checking",
+    text="NumFormat.tla models doubles exactly (sign, 53-bit mantissa as a bit sequence, binary exponent) and computes exact decimal expansions "
+         "with unbounded decimal arithmetic on digit sequences. For every number of a dyadic lattice, every listed boundary (zero, smallest / "
+         "largest subnormal, smallest normal, largest finite, 2^53 and 2^63 neighbours, powers of two) and TLC-drawn random mantissas and exponents "
+         "of both signs, the interpreter must print the predicted text (exact where the expansion has <= 15 significant digits), read its own output "
+         "back to the identical number (sign of zero via 1/x), and read the exact expansion, the midpoint of the gap above (ties to even, with a "
+         "negative control), texts just above / below it and the quarter points as the predicted neighbour, through String.to_num and as source "
+         "literals. Every text of <= 4 characters over a number alphabet is accepted / rejected as the grammar in the specification says. "
+         "Scanner.tla decides `1.len`, `1..3`, `1.5`, `1.` token by token for all sources up to 5 characters over the Numbers alphabet.",
+    note="Not for all 2^64 doubles: boundaries + lattice + TLC-drawn samples. Where the exact expansion has more than 15 significant digits the "
+         "shortest-digit text is not predicted (no model of that algorithm, which lives in the Rust standard library); it is constrained by the "
+         "round trip and by the reading of the texts around every gap.",
+    technique="TLA+ exact-arithmetic model of doubles and decimal text (NumFormat.tla) + TLC case enumeration + implementation run per case; Scanner.tla exhaustive",
+    design="4 C19"),
  "C03": dict(
     level="model_checking",
     text="Scanner.tla is an executable specification of scan_token (white space, comments, the two-character number look-ahead, keywords, every "
